@@ -1521,3 +1521,42 @@ MUTANTS += [
  dict(name='c09-benign-canonical-helper-stride-48', prop='C09', benign=True, expect='', patch='seeded/C09-decode-canonical-helper-strides-by-field-size/patch.diff',
       edits=[('src/bls12_381/curve.cpp', 'for (size_t i = 0; i != size; i += sizeof(BaseField)) {', 'for (size_t i = 0; i != size; i += sizeof(Fq)) {')]),
 ]
+
+# ---- benign-refactor round 5 (larger combined refactors) and defective variants
+MUTANTS += [
+ dict(name='benign-r5-C01', prop='C01', benign=True, expect='', patch='selftest/fixes/benign-r5-C01.patch'),
+ dict(name='benign-r5-C01-on-C08', prop='C08', benign=True, expect='', patch='selftest/fixes/benign-r5-C01.patch'),
+ dict(name='benign-r5-C02', prop='C02', benign='noverdict', expect='', patch='selftest/fixes/benign-r5-C02.patch'),
+ dict(name='benign-r5-C05', prop='C05', benign=True, expect='', patch='selftest/fixes/benign-r5-C05.patch'),
+ dict(name='benign-r5-C05-on-C18', prop='C18', benign=True, expect='', patch='selftest/fixes/benign-r5-C05.patch'),
+ dict(name='benign-r5-C06', prop='C06', benign=True, expect='', patch='selftest/fixes/benign-r5-C06.patch'),
+ dict(name='benign-r5-C06-on-C17', prop='C17', benign=True, expect='', patch='selftest/fixes/benign-r5-C06.patch'),
+ dict(name='benign-r5-C09', prop='C09', benign=True, expect='', patch='selftest/fixes/benign-r5-C09.patch'),
+ dict(name='benign-r5-C09-on-C10', prop='C10', benign=True, expect='', patch='selftest/fixes/benign-r5-C09.patch'),
+ dict(name='benign-r5-C11', prop='C11', benign=True, expect='', patch='selftest/fixes/benign-r5-C11.patch'),
+ dict(name='benign-r5-C11-on-C12', prop='C12', benign=True, expect='', patch='selftest/fixes/benign-r5-C11.patch'),
+ dict(name='benign-r5-C11-on-C14', prop='C14', benign=True, expect='', patch='selftest/fixes/benign-r5-C11.patch'),
+ dict(name='benign-r5-C13', prop='C13', benign=True, expect='', patch='selftest/fixes/benign-r5-C13.patch'),
+ dict(name='benign-r5-C13-on-C14', prop='C14', benign=True, expect='', patch='selftest/fixes/benign-r5-C13.patch'),
+ dict(name='benign-r5-C14', prop='C14', benign=True, expect='', patch='selftest/fixes/benign-r5-C14.patch'),
+ dict(name='benign-r5-C14-on-C11', prop='C11', benign=True, expect='', patch='selftest/fixes/benign-r5-C14.patch'),
+ dict(name='benign-r5-C15', prop='C15', benign='noverdict', expect='', patch='selftest/fixes/benign-r5-C15.patch'),
+ dict(name='benign-r5-C17', prop='C17', benign=True, expect='', patch='selftest/fixes/benign-r5-C17.patch'),
+ dict(name='benign-r5-C17-on-C09', prop='C09', benign=True, expect='', patch='selftest/fixes/benign-r5-C17.patch'),
+ dict(name='benign-r5-C02-on-C04', prop='C04', benign=True, expect='', patch='selftest/fixes/benign-r5-C02.patch'),
+ dict(name='benign-r5-C15-on-C17', prop='C17', benign='noverdict', expect='', patch='selftest/fixes/benign-r5-C15.patch'),
+ dict(name='benign-r5-C01-folded-loop-stops-at-1', prop='C01', expect='ccl|', patch='selftest/fixes/benign-r5-C01.patch',
+      edits=[('src/bls12_381/pairing.cpp', 'if (i == 0) {\n                break;', 'if (i == 1) {\n                break;')]),
+ dict(name='benign-r5-C01-helper-guard-and', prop='C01', expect='R-GUARD/G1', patch='selftest/fixes/benign-r5-C01.patch',
+      edits=[('src/bls12_381/pairing.cpp', 'return pair.g1->is_zero() || pair.g2->is_zero();', 'return pair.g1->is_zero() && pair.g2->is_zero();')]),
+ dict(name='benign-r5-C06-helper-negation-inverted', prop='C06', expect='digits|', patch='selftest/fixes/benign-r5-C06.patch',
+      edits=[('src/bls12_381/curve_fast_multiply.cpp', 'g1_add_signed(*this, entry, digit_neg != c0_neg);', 'g1_add_signed(*this, entry, digit_neg == c0_neg);')]),
+ dict(name='benign-r5-C09-padding-from-byte-2', prop='C09', expect='padding', patch='selftest/fixes/benign-r5-C09.patch',
+      edits=[('src/bls12_381/curve.cpp', '|| !is_zero_padding(&this->data[1], end))) {', '|| !is_zero_padding(&this->data[2], end))) {')]),
+ dict(name='benign-r5-C13-skip-helper-passes-equal', prop='C13', expect='VIOLATION property=C13', patch='selftest/fixes/benign-r5-C13.patch',
+      edits=[('src/wkdibe/api.cpp', 'while (k != list.length && list.attrs[k].idx < idx) {', 'while (k != list.length && list.attrs[k].idx <= idx) {')]),
+ dict(name='benign-r5-C14-drain-restarts', prop='C14', expect='VIOLATION property=C14', patch='selftest/fixes/benign-r5-C14.patch',
+      edits=[('src/wkdibe/api.cpp', 'for (const Attribute* removed = from.attrs + i; removed != from_end; removed++) {', 'for (const Attribute* removed = from.attrs; removed != from_end; removed++) {')]),
+ dict(name='benign-r5-C11-helper-wrong-base', prop='C11', expect='VIOLATION property=C11', patch='selftest/fixes/benign-r5-C11.patch',
+      edits=[('src/wkdibe/api.cpp', 'term.multiply(base, id);', 'term.multiply(acc, id);')]),
+]
